@@ -9,6 +9,13 @@ import (
 	sdkmath "cosmossdk.io/math"
 	sdk "github.com/cosmos/cosmos-sdk/types"
 	gogoproto "github.com/cosmos/gogoproto/proto"
+
+	ammtypes "github.com/elys-network/elys/x/amm/types"
+	ctypes "github.com/elys-network/elys/x/commitment/types"
+	lptypes "github.com/elys-network/elys/x/leveragelp/types"
+	mctypes "github.com/elys-network/elys/x/masterchef/types"
+	paramtypes "github.com/elys-network/elys/x/parameter/types"
+	tokenomicstypes "github.com/elys-network/elys/x/tokenomics/types"
 )
 
 // "Parameter settings permitted by validation": governance may set any module parameters that the
@@ -241,4 +248,113 @@ func safeCall(f func() error) (err error) {
 		}
 	}()
 	return f()
+}
+
+// ---------------------------------------------------------------- other governance knobs
+
+// GenGovKnob draws one of the other governance-settable settings (per-pool parameters, chain-wide reward
+// constants, vesting schedules, inflation schedules, pool multipliers) with boundary values; it is used only
+// if ValidateBasic and the handler accept it on the current state.
+func GenGovKnob(h *History, g *G) *EnvAction {
+	w, s := h.W, h.Cur
+	gov := GovAddr()
+	pickI := func(l string) int64 { return pgInts[g.Pick(l, len(pgInts))] }
+	pickD := func(l string) sdkmath.LegacyDec {
+		return sdkmath.LegacyMustNewDecFromStr(pgDecs[g.Pick(l, len(pgDecs))])
+	}
+	var msg sdk.Msg
+	var what string
+	switch g.Pick("knob", 10) {
+	case 0:
+		if len(s.Pools) == 0 {
+			return nil
+		}
+		p := s.Pools[g.Pick("knob/pool", len(s.Pools))]
+		pp := p.PoolParams
+		switch g.Pick("knob/poolfield", 3) {
+		case 0:
+			pp.SwapFee = pickD("knob/fee")
+			what = fmt.Sprintf("amm pool %d SwapFee=%s", p.PoolId, pp.SwapFee)
+		case 1:
+			pp.UseOracle = !pp.UseOracle
+			what = fmt.Sprintf("amm pool %d UseOracle=%v", p.PoolId, pp.UseOracle)
+		default:
+			pp.FeeDenom = w.Scenario.Denoms[g.Pick("knob/feedenom", len(w.Scenario.Denoms))]
+			what = fmt.Sprintf("amm pool %d FeeDenom=%s", p.PoolId, pp.FeeDenom)
+		}
+		msg = &ammtypes.MsgUpdatePoolParams{Authority: gov, PoolId: p.PoolId, PoolParams: pp}
+	case 1:
+		n := uint64(pickI("knob/bpy"))
+		msg, what = &paramtypes.MsgUpdateTotalBlocksPerYear{Creator: gov, TotalBlocksPerYear: n}, fmt.Sprintf("parameter TotalBlocksPerYear=%d", n)
+	case 2:
+		n := uint64(pickI("knob/rdl"))
+		msg, what = &paramtypes.MsgUpdateRewardsDataLifetime{Creator: gov, RewardsDataLifetime: n}, fmt.Sprintf("parameter RewardsDataLifetime=%d", n)
+	case 3:
+		m := &ctypes.MsgUpdateVestingInfo{Authority: gov, BaseDenom: "ueden", VestingDenom: "uelys", NumBlocks: int64(w.Scenario.VestBlocks), VestNowFactor: int64(w.Scenario.VestNowFactor), NumMaxVestings: int64(w.Scenario.MaxVestings)}
+		switch g.Pick("knob/vestfield", 3) {
+		case 0:
+			m.NumBlocks = pickI("knob/nb")
+		case 1:
+			m.VestNowFactor = pickI("knob/vnf")
+		default:
+			m.NumMaxVestings = pickI("knob/nmv")
+		}
+		msg, what = m, fmt.Sprintf("commitment vesting info ueden NumBlocks=%d VestNowFactor=%d NumMaxVestings=%d", m.NumBlocks, m.VestNowFactor, m.NumMaxVestings)
+	case 4:
+		en := g.Bool("knob/evn")
+		msg, what = &ctypes.MsgUpdateEnableVestNow{Authority: gov, EnableVestNow: en}, fmt.Sprintf("commitment EnableVestNow=%v", en)
+	case 5:
+		inf := &tokenomicstypes.InflationEntry{LmRewards: uint64(pickI("knob/lm")), IcsStakingRewards: uint64(pickI("knob/ics")), CommunityFund: uint64(pickI("knob/cf")), StrategicReserve: uint64(pickI("knob/sr")), TeamTokensVested: uint64(pickI("knob/tt"))}
+		msg, what = &tokenomicstypes.MsgUpdateGenesisInflation{Authority: gov, Inflation: inf, SeedVesting: uint64(pickI("knob/sv")), StrategicSalesVesting: uint64(pickI("knob/ssv"))}, fmt.Sprintf("tokenomics genesis inflation %v", inf)
+	case 6:
+		inf := &tokenomicstypes.InflationEntry{LmRewards: uint64(pickI("knob/lm")), IcsStakingRewards: uint64(pickI("knob/ics")), CommunityFund: uint64(pickI("knob/cf")), StrategicReserve: uint64(pickI("knob/sr")), TeamTokensVested: uint64(pickI("knob/tt"))}
+		start := uint64(s.Height) + uint64(g.Int("knob/tbstart", 0, 4))
+		end := start + uint64(g.Int("knob/tblen", 0, 30))
+		msg, what = &tokenomicstypes.MsgCreateTimeBasedInflation{Authority: gov, StartBlockHeight: start, EndBlockHeight: end, Description: "generated", Inflation: inf}, fmt.Sprintf("tokenomics time-based inflation [%d,%d] %v", start, end, inf)
+	case 7:
+		if len(s.MCPoolInfos) == 0 {
+			return nil
+		}
+		pi := s.MCPoolInfos[g.Pick("knob/mcpool", len(s.MCPoolInfos))]
+		d := pickD("knob/mult")
+		msg, what = &mctypes.MsgUpdatePoolMultipliers{Authority: gov, PoolMultipliers: []mctypes.PoolMultiplier{{PoolId: pi.PoolId, Multiplier: d}}}, fmt.Sprintf("masterchef pool %d multiplier=%s", pi.PoolId, d)
+	case 8:
+		if len(s.MCPoolInfos) == 0 {
+			return nil
+		}
+		pi := s.MCPoolInfos[g.Pick("knob/mcpool", len(s.MCPoolInfos))]
+		msg, what = &mctypes.MsgTogglePoolEdenRewards{Authority: gov, PoolId: pi.PoolId, Enable: !pi.EnableEdenRewards}, fmt.Sprintf("masterchef pool %d eden=%v", pi.PoolId, !pi.EnableEdenRewards)
+	default:
+		if len(s.Pools) == 0 {
+			return nil
+		}
+		p := s.Pools[g.Pick("knob/lppool", len(s.Pools))]
+		d := pickD("knob/levmax")
+		msg, what = &lptypes.MsgAddPool{Authority: gov, Pool: lptypes.AddPool{AmmPoolId: p.PoolId, LeverageMax: d}}, fmt.Sprintf("leveragelp add pool %d LeverageMax=%s", p.PoolId, d)
+	}
+	h.Labels["gov-knob-drawn"]++
+	if vb, ok := msg.(sdk.HasValidateBasic); ok {
+		if err := safeCall(func() error { return vb.ValidateBasic() }); err != nil {
+			h.Labels["gov-knob-refused"]++
+			return nil
+		}
+	}
+	hd := w.App.MsgServiceRouter().Handler(msg)
+	if hd == nil {
+		return nil
+	}
+	cctx, _ := w.SetupCtx().CacheContext()
+	if err := safeCall(func() error { _, e := hd(cctx, msg); return e }); err != nil {
+		h.Labels["gov-knob-refused"]++
+		return nil
+	}
+	h.Labels["gov-knob-applied"]++
+	name := what
+	if i := strings.IndexAny(name, "0123456789=["); i > 0 {
+		name = strings.TrimSpace(name[:i])
+	}
+	h.Labels["gov-knob/"+name]++
+	e := w.GovEnv(msg)
+	e.Args["what"] = what
+	return &e
 }
